@@ -21,7 +21,7 @@ RULE = ("cases: one call = (p, K, size, replace, seed).  distinct = distinct arg
         ' Also: numpy-int arguments, p = 65..130 without replacement, the seeded call repeated after the caller edited the lists of an earlier result.')
 ASSUMPTIONS = ["sizes are python ints / 2-tuples of ints as documented"]
 EXHAUSTIVE = {"quick": True, "thorough": True}
-SOFT_LIMIT = {"quick": 240, "thorough": 1500}
+SOFT_LIMIT = {"quick": 1200, "thorough": 5400}      # generous wall-clock watchdogs (a loaded machine must not cut a workload short); normal run times are in the evidence
 REQUIRED_FUNCS = ["sempler/generators.py:intervention_targets"]
 REQUIRED_COUNTERS = {"quick": {"ok:returned": 20000, "error:max>p": 1000, "error:tuple-length": 100, "error:without-replacement-impossible": 1000,
                                "boundary:maxK=p": 50, "coverage:sizes-asserted": 10, "coverage:variables-asserted": 20},
